@@ -57,6 +57,8 @@ pub enum OpKind {
     SetOptNx(Vec<u8>),
     SetOptXx(Vec<u8>),
     SetOptGet(Vec<u8>),
+    /// one element of an MGET reply (nil for a missing key and for a key that is not a string)
+    MGetElem,
 }
 
 #[derive(Clone, Debug, PartialEq, Eq, Hash)]
@@ -112,6 +114,8 @@ pub fn apply(st: &KeyState, op: &OpKind) -> (KeyState, Tree) {
         (OpKind::GetSet(v), KeyState::Str(s)) | (OpKind::EvalSwap(v), KeyState::Str(s)) => (KeyState::Str(v.clone()), bulk(s)),
         (OpKind::GetSet(_), KeyState::List(_)) => (st.clone(), wrongtype()),
         (OpKind::EvalSwap(_), KeyState::List(_)) => (st.clone(), Tree::Error(b"ERR".to_vec())),
+        (OpKind::MGetElem, KeyState::Str(s)) => (st.clone(), bulk(s)),
+        (OpKind::MGetElem, _) => (st.clone(), Tree::Bulk(None)),
         (OpKind::SetOptNx(v), KeyState::Nil) => (KeyState::Str(v.clone()), ok),
         (OpKind::SetOptNx(_), _) => (st.clone(), Tree::Bulk(None)),
         (OpKind::SetOptXx(_), KeyState::Nil) => (st.clone(), Tree::Bulk(None)),
@@ -243,7 +247,9 @@ fn parse_opkind(s: &str) -> OpKind {
         let inner = s.split('[').nth(1).and_then(|x| x.split(']').next()).unwrap_or("");
         inner.split(',').filter_map(|x| x.trim().parse::<u8>().ok()).collect()
     };
-    if s.starts_with("SetOptNx") {
+    if s.starts_with("MGetElem") {
+        OpKind::MGetElem
+    } else if s.starts_with("SetOptNx") {
         OpKind::SetOptNx(arg(s))
     } else if s.starts_with("SetOptXx") {
         OpKind::SetOptXx(arg(s))
@@ -329,6 +335,7 @@ async fn do_op(st: &ShardedActorState, key: &str, op: &OpKind, via: &Via, sha: O
                 // half of the script invocations go through EVALSHA (the script was loaded when the history began)
                 OpKind::EvalSwap(v) if sha.is_some() && v.len() % 2 == 0 => Command::EvalSha { sha1: sha.unwrap().to_string(), keys: vec![k], args: vec![SDS::new(v.clone())] },
                 OpKind::EvalSwap(v) => Command::Eval { script: SWAP_SCRIPT.to_string(), keys: vec![k], args: vec![SDS::new(v.clone())] },
+                OpKind::MGetElem => Command::MGet(vec![k]),
                 OpKind::SetOptNx(v) | OpKind::SetOptXx(v) | OpKind::SetOptGet(v) => Command::Set {
                     key: k,
                     value: SDS::new(v.clone()),
@@ -457,11 +464,14 @@ async fn run_history(cfg: &HistCfg, seed: u64) -> (Vec<Rec>, Vec<Rec>) {
                     // one reply vector; every element is an operation on its key with the call's stamps
                     let m = rng.gen_range(2..=4);
                     let ks: Vec<usize> = (0..m).map(|_| rng.gen_range(0..keys)).collect();
-                    let sets = rng.gen_bool(0.4);
+                    let mget = rng.gen_bool(0.3);
+                    let sets = !mget && rng.gen_bool(0.4);
                     let ops: Vec<OpKind> = ks
                         .iter()
                         .map(|_| {
-                            if sets {
+                            if mget {
+                                OpKind::MGetElem
+                            } else if sets {
                                 ctr += 1;
                                 OpKind::Set(format!("c{}v{}", c, ctr).into_bytes())
                             } else {
@@ -470,8 +480,15 @@ async fn run_history(cfg: &HistCfg, seed: u64) -> (Vec<Rec>, Vec<Rec>) {
                         })
                         .collect();
                     let call = stamp();
-                    pending.lock().unwrap().insert(c, ks.iter().zip(&ops).map(|(k, op)| Rec { client: c, key: *k, op: op.clone(), via: Via::Batch, call, ret: None }).collect());
-                    let replies: Vec<Tree> = if sets {
+                    pending.lock().unwrap().insert(c, ks.iter().zip(&ops).map(|(k, op)| Rec { client: c, key: *k, op: op.clone(), via: if mget { Via::Generic } else { Via::Batch }, call, ret: None }).collect());
+                    let via_b = if mget { Via::Generic } else { Via::Batch };
+                    let replies: Vec<Tree> = if mget {
+                        // one MGET over keys that may live on different shards: the reply array is positional
+                        match myresp::from_resp(&st.execute(&Command::MGet(ks.iter().map(|k| key_name(*k)).collect())).await) {
+                            Tree::Arr(Some(v)) => v,
+                            other => vec![other; ks.len()],
+                        }
+                    } else if sets {
                         let pairs = ks.iter().zip(&ops).map(|(k, op)| (Bytes::from(key_name(*k)), Bytes::copy_from_slice(match op { OpKind::Set(v) => v, _ => b"" }))).collect();
                         st.fast_batch_set_pipeline(pairs).await.iter().map(myresp::from_resp).collect()
                     } else {
@@ -483,7 +500,7 @@ async fn run_history(cfg: &HistCfg, seed: u64) -> (Vec<Rec>, Vec<Rec>) {
                     for (i, (k, op)) in ks.iter().zip(&ops).enumerate() {
                         // a missing element of the reply vector is recorded as a protocol-level error reply
                         let r = replies.get(i).cloned().unwrap_or(Tree::Error(b"MISSING-BATCH-ELEMENT".to_vec()));
-                        l.push(Rec { client: c, key: *k, op: op.clone(), via: Via::Batch, call, ret: Some((ret, r)) });
+                        l.push(Rec { client: c, key: *k, op: op.clone(), via: via_b.clone(), call, ret: Some((ret, r)) });
                     }
                     continue;
                 }
@@ -710,8 +727,17 @@ pub fn lin_leg(args: &Args) {
 // return stamp when the client has decoded the reply. A reply that never arrives although the
 // handler is parked on an empty read is decided logically (no wall clock).
 
-fn conn_frame(key: &str, op: &OpKind) -> Vec<u8> {
-    let k = key.as_bytes();
+/// Key bytes on the wire: key 0 is not valid UTF-8 (a binary key must keep one identity whichever path - the
+/// raw-bytes fast path or the generic parser - serves the command); the others are the API leg's names.
+fn conn_key(i: usize) -> Vec<u8> {
+    if i == 0 {
+        vec![0xff, 0xfe, b'b', b'i', b'n', b':', b'0']
+    } else {
+        key_name(i).into_bytes()
+    }
+}
+
+fn conn_frame(k: &[u8], op: &OpKind) -> Vec<u8> {
     match op {
         OpKind::Get => myresp::frame(&[b"GET", k]),
         OpKind::Set(v) => myresp::frame(&[b"SET", k, v]),
@@ -724,6 +750,7 @@ fn conn_frame(key: &str, op: &OpKind) -> Vec<u8> {
         OpKind::LPop => myresp::frame(&[b"LPOP", k]),
         OpKind::LLen => myresp::frame(&[b"LLEN", k]),
         OpKind::EvalSwap(v) => myresp::frame(&[b"EVAL", SWAP_SCRIPT.as_bytes(), b"1", k, v]),
+        OpKind::MGetElem => myresp::frame(&[b"MGET", k]),
         OpKind::SetOptNx(v) => myresp::frame(&[b"SET", k, v, b"NX"]),
         OpKind::SetOptXx(v) => myresp::frame(&[b"SET", k, v, b"XX"]),
         OpKind::SetOptGet(v) => myresp::frame(&[b"SET", k, v, b"GET"]),
@@ -795,7 +822,7 @@ async fn run_conn_history(cfg: &ConnCfg, seed: u64) -> ConnOutcome {
                 }
                 let mut bytes = vec![];
                 for (k, op) in &ops {
-                    bytes.extend_from_slice(&conn_frame(&key_name(*k), op));
+                    bytes.extend_from_slice(&conn_frame(&conn_key(*k), op));
                 }
                 // hand the bytes over whole or in 2-3 fragments with scheduler turns in between
                 let cuts = match rng.gen_range(0..4) { 0 => 1, 1 => 2, _ => 0 };
